@@ -125,8 +125,18 @@ func execExtra(op string, a []string) string {
 // together: any package-level scratch state shared between calls shows up as a changed answer.
 func execConc(arg string) string {
 	subs := strings.Split(arg, ";")
-	const rounds = 3
-	outs := make([][rounds]string, len(subs))
+	rounds := 8
+	same := true
+	for _, s := range subs {
+		same = same && strings.SplitN(s, "/", 2)[0] == strings.SplitN(subs[0], "/", 2)[0]
+	}
+	if same {
+		rounds = 40 // one code path hammered from every goroutine
+	}
+	outs := make([][]string, len(subs))
+	for i := range outs {
+		outs[i] = make([]string, rounds)
+	}
 	start := make(chan struct{})
 	done := make(chan int, len(subs))
 	for i, s := range subs {
@@ -196,6 +206,9 @@ func ctxSession2(msg [32]byte, tw tweakOpt, signersS string) string {
 		if c.NumRegisteredSigners() != n || len(c.SigningKeys()) != n {
 			return "err:count"
 		}
+		if _, err := c.RegisterSigner(privs[0].PubKey()); err == nil || c.NumRegisteredSigners() != n {
+			return "err:extra-signer-allowed"
+		}
 		pk := c.PubKey()
 		if !pk.IsEqual(priv.PubKey()) {
 			return "err:pubkey"
@@ -231,6 +244,9 @@ func ctxSession2(msg [32]byte, tw tweakOpt, signersS string) string {
 		if s.NumRegisteredNonces() != n {
 			return head + " err:count"
 		}
+		if _, err := s.RegisterPubNonce(sessions[0].PublicNonce()); err == nil || s.NumRegisteredNonces() != n {
+			return head + " err:extra-nonce-allowed"
+		}
 	}
 	cn, err := sessions[0].CombinedNonce()
 	if err != nil {
@@ -256,6 +272,12 @@ func ctxSession2(msg [32]byte, tw tweakOpt, signersS string) string {
 	final := sessions[0].FinalSig()
 	if final == nil {
 		return head + " err:nofinal"
+	}
+	if _, err := sessions[0].CombineSig(ps[len(ps)-1]); err == nil {
+		return head + " err:extra-sig-allowed"
+	}
+	if f2 := sessions[0].FinalSig(); f2 == nil || !f2.IsEqual(final) {
+		return "UNSTABLE " + head
 	}
 	agg2, _ := ctxs[0].CombinedKey()
 	if !agg2.IsEqual(agg) {
@@ -301,6 +323,11 @@ func genExtra(g *core.Gen) {
 		case 5:
 			p1 = append([]byte{0}, r.Bytes(32)...)
 			class = "bad-infinity"
+			if r.Bool() { // all zero except ONE byte somewhere (every position gets hit over a run)
+				p1 = make([]byte, 33)
+				p1[1+r.Intn(32)] = byte(1 + r.Intn(255))
+				class = "bad-infinity-1byte"
+			}
 		case 6:
 			p2 = append([]byte{byte(r.Pick(1, 4, 5, 6, 7))}, p2[1:]...)
 			class = "bad-prefix"
@@ -309,6 +336,11 @@ func genExtra(g *core.Gen) {
 			class = "random-x"
 		}
 		g.Case("jac:"+class, true, fmt.Sprintf("C11 jac %x %x", p1, p2))
+	}
+	for pos := 1; pos <= 32; pos++ { // the infinity encoding with exactly one non-zero byte, every position
+		b := make([]byte, 33)
+		b[pos] = byte(1 + r.Intn(255))
+		g.Case("jac:bad-infinity-sweep", true, fmt.Sprintf("C11 jac %x %x", b, pubOf(randPriv(r)).SerializeCompressed()))
 	}
 	// DecompressY
 	for i := 0; i < g.N(80, 1000); i++ {
@@ -336,6 +368,14 @@ func genExtra(g *core.Gen) {
 			b = append([]byte{byte(2 + r.Intn(2))}, r.Bytes(32)...)
 		}
 		g.Case("pkutil", len(b) == 33 || len(b) == 65, "C11 pkutil "+hx(b))
+	}
+	// every small prefix byte on a 33-byte and a 65-byte body (format-bit masks)
+	{
+		pk := pubOf(randPriv(r))
+		for pre := 0; pre < 16; pre++ {
+			g.Case("pkutil:prefix", true, fmt.Sprintf("C11 pkutil %02x%x", pre, pk.SerializeCompressed()[1:]))
+			g.Case("pkutil:prefix", true, fmt.Sprintf("C11 pkutil %02x%x", pre, pk.SerializeUncompressed()[1:]))
+		}
 	}
 	// PartialSignature Encode/Decode
 	for _, e := range edges {
@@ -434,5 +474,33 @@ func genExtra(g *core.Gen) {
 			}
 		}
 		g.Case("conc", true, "C11 conc "+strings.Join(subs, ";"))
+	}
+	// the same code path from 12 goroutines at once with different inputs (key aggregation with 6..8 keys,
+	// nonce aggregation, DER/pubkey parsing): a package-level scratch buffer is hit with high probability
+	for i := 0; i < g.N(6, 60); i++ {
+		var subs []string
+		for j := 0; j < 12; j++ {
+			switch i % 3 {
+			case 0:
+				var ks []string
+				for k := 0; k < 6+r.Intn(3); k++ {
+					ks = append(ks, hx(pubOf(randPriv(r)).SerializeCompressed()))
+				}
+				subs = append(subs, fmt.Sprintf("keyagg/%d/%s/%s", r.Intn(2), strings.Join(ks, ","), randTweaks(r, 2)))
+			case 1:
+				var ns []string
+				for k := 0; k < 4+r.Intn(3); k++ {
+					ns = append(ns, hx(append(pubOf(randPriv(r)).SerializeCompressed(), pubOf(randPriv(r)).SerializeCompressed()...)))
+				}
+				subs = append(subs, "nonceagg/"+strings.Join(ns, ","))
+			case 2:
+				if j%2 == 0 {
+					subs = append(subs, fmt.Sprintf("ser/%x/%x", b32(randPriv(r)), b32(randPriv(r))))
+				} else {
+					subs = append(subs, fmt.Sprintf("pub/%x", pubFormats(pubOf(randPriv(r)))[r.Intn(3)]))
+				}
+			}
+		}
+		g.Case("conc:same-path", true, "C11 conc "+strings.Join(subs, ";"))
 	}
 }
